@@ -273,6 +273,10 @@ Proof.
         assert (LE := runner_le_anchor r (st ++ others)). rewrite !count_app in LE. lia.
       * split; [lia|]. intros St. specialize (I2 St). lia.
     + inversion H; subst; clear H. simpl. rr_leaf Inv.
+  - (* FOutAdd *)
+    destruct (Nat.ltb n (length (s_nodes s))); [|discriminate]. unfold g_add_out_released in H. inversion H; subst; clear H. simpl.
+    eapply mutex_on_frames; [| |exact Inv]; intros r'; cnt; destruct (n_inv (getn (s_nodes s) n)), (is_nil (n_out (getn (s_nodes s) n))); simpl; lia.
+  - (* FPhInv *) inversion H; subst; clear H. plain_leaf Inv.
 Qed.
 
 Lemma step_mutex : forall s l s', mutex_inv s -> step s l = Some s' -> mutex_inv s'.
@@ -296,6 +300,8 @@ Proof.
     destruct (r_clock (getr s r)); [discriminate|]. inversion H; subst; clear H. simpl.
     eapply mutex_on_setl; [split; reflexivity | | | exact Inv]; intros r'; reflexivity || lia.
   - simpl in H. destruct (Nat.eqb (n_timer (getN s n)) 1); [|discriminate]. inversion H; subst; clear H.
+    rewrite frames_spawn. unfold all_frames in *. simpl. eapply mutex_on_frames; [| |exact Inv]; intros r0; rewrite count_app; simpl; lia.
+  - simpl in H. destruct (Nat.ltb slot (length (s_slots s))); [|discriminate]. inversion H; subst; clear H.
     rewrite frames_spawn. unfold all_frames in *. simpl. eapply mutex_on_frames; [| |exact Inv]; intros r0; rewrite count_app; simpl; lia.
 Qed.
 
@@ -396,6 +402,7 @@ Proof.
     destruct (Nat.eqb r0 r && Nat.ltb r0 (length (s_rrs s))) eqn:E; [|exact St].
     apply andb_true_iff in E. destruct E as [E _]. apply Nat.eqb_eq in E. subst. exact St.
   - simpl in H. destruct (Nat.eqb (n_timer (getN s n)) 1); [|discriminate]. inversion H; subst; clear H. exact St.
+  - simpl in H. destruct (Nat.ltb slot (length (s_slots s))); [|discriminate]. inversion H; subst; clear H. exact St.
 Qed.
 
 Lemma run_stop_stable : forall ls s s' r, run s ls = Some s' -> r_stop (getr s r) = true -> r_stop (getr s' r) = true.
@@ -424,6 +431,7 @@ Proof.
   - simpl in H. destruct (Nat.ltb r (length (s_rrs s))); [|discriminate].
     destruct (r_clock (getr s r)); [discriminate|]. inversion H; subst. simpl. apply length_setl.
   - simpl in H. destruct (Nat.eqb (n_timer (getN s n)) 1); [|discriminate]. inversion H; reflexivity.
+  - simpl in H. destruct (Nat.ltb slot (length (s_slots s))); [|discriminate]. inversion H; reflexivity.
 Qed.
 
 Lemma run_rrs_length : forall ls s s', run s ls = Some s' -> length (s_rrs s') = length (s_rrs s).
